@@ -10,8 +10,11 @@ pub mod sync {
         pub fn channel<T>(buffer: usize) -> (r: (Sender<T>, Receiver<T>)) ensures !r.1.all_senders_dropped(), r.0.chan == r.1.chan, { unimplemented!() }
         // what is known about every value taken out of a queue (the invariant the senders maintain; see client::message::axiom_queue_inv)
         pub uninterp spec fn queue_inv<T>(v: T) -> bool;
-        pub struct SendError<T> { pub v: T }
-        pub struct TrySendError<T> { pub v: T }
+        pub mod error {
+            pub struct SendError<T> { pub v: T }
+            pub struct TrySendError<T> { pub v: T }
+        }
+        pub use error::{SendError, TrySendError};
         impl<T> Clone for Sender<T> {
             #[verifier::external_body]
             fn clone(&self) -> (r: Self) ensures r.chan == self.chan { unimplemented!() }
@@ -21,14 +24,17 @@ pub mod sync {
             pub uninterp spec fn delivered(&self, v: T) -> bool;
             // the receiving half has been closed or dropped
             pub uninterp spec fn receiver_gone(&self) -> bool;
-            // waits for capacity: fails only when the receiver is gone
+            // waits for capacity: fails only when the receiver is gone. Whatever is put into a queue satisfies that queue's invariant
+            // (`queue_inv`, which `recv` hands to the consumer): assume / guarantee across the channel
             #[verifier::external_body]
             pub async fn send(&self, v: T) -> (r: Result<(), SendError<T>>)
+                requires queue_inv(v),
                 ensures r is Ok ==> self.delivered(v), r is Err ==> self.receiver_gone(),
             { unimplemented!() }
             // never waits: also fails when the queue is full
             #[verifier::external_body]
             pub fn try_send(&self, v: T) -> (r: Result<(), TrySendError<T>>)
+                requires queue_inv(v),
                 ensures r is Ok ==> self.delivered(v),
             { unimplemented!() }
         }
@@ -44,7 +50,22 @@ pub mod sync {
             { unimplemented!() }
         }
     }
+    pub mod oneshot {
+        use vstd::prelude::*;
+        pub struct Sender<T> { pub ghost chan: int, pub _p: core::marker::PhantomData<T> }
+        pub struct Receiver<T> { pub ghost chan: int, pub _p: core::marker::PhantomData<T> }
+        pub mod error { pub struct RecvError { pub x: u8 } }
+        #[verifier::external_body]
+        pub fn channel<T>() -> (r: (Sender<T>, Receiver<T>)) ensures r.0.chan == r.1.chan { unimplemented!() }
+        // awaiting the receiver yields the value the promise was completed with, or RecvError when the sender was dropped
+        #[verifier::external]
+        impl<T> core::future::Future for Receiver<T> {
+            type Output = Result<T, error::RecvError>;
+            fn poll(self: core::pin::Pin<&mut Self>, cx: &mut core::task::Context<'_>) -> core::task::Poll<Self::Output> { unimplemented!() }
+        }
+    }
 }
+//@trusted tokio::sync::oneshot: opaque (the value received is whatever the promise was completed with; not related to the promise in the contracts)
 //@trusted tokio::sync::mpsc::{Sender,Receiver}: opaque handles identified by a ghost channel id; send().await fails only when the receiver is gone, try_send may also fail on a full queue; drop propagation not modelled
 #[verifier::external_body]
 pub fn spawn<F: core::future::Future>(f: F) { unimplemented!() }
